@@ -172,8 +172,8 @@ structure CInvX (s : State) (x : Option Handle) : Prop where
     (s.obj e.2).obsolete = false ∧ some e.2 ≠ x
   funS : ∀ c, Fun (s.fac c).strong
   funW : ∀ c, Fun (s.fac c).weak
-  /-- no key is in both maps -/
-  disj : ∀ c k v1 v2, (k, v1) ∈ (s.fac c).strong → (k, v2) ∈ (s.fac c).weak → False
+  /-- a key of the strong map is in the weak map at most as a dead leftover -/
+  disj : ∀ c k v1 v2, (k, v1) ∈ (s.fac c).strong → (k, v2) ∈ (s.fac c).weak → (s.obj v2).dead = true
   /-- the strong cache keeps its objects alive -/
   salive : ∀ c e, e ∈ (s.fac c).strong → (s.obj e.2).dead = false
   nocache : s.cfg.doCache = false → ∀ c, (s.fac c).strong = []
@@ -257,7 +257,11 @@ theorem inv_setObj (s : State) (h : Handle) (o : Obj) (hi : CInv s)
     split <;> simp_all
   · exact h2
   · exact h3
-  · exact h4
+  · intro c k v1 v2 a b
+    have := h4 c k v1 v2 a b
+    simp only [setObj, upd]; split
+    · subst_vars; rw [e3]; exact this
+    · exact this
   · intro c e he; have := h5 c e he; simp only [setObj, upd]; split <;> simp_all
   · exact h6
   · intro h' hn hx hh ho
@@ -340,7 +344,8 @@ theorem cull_complete (s : State) (c : Cls) (e : Id × Handle) {x} (hi : CInvX s
     · simp [he, hd]
     · intro v hv
       simp only [List.mem_filter] at hv
-      exact hi.disj c e.1 v e.2 hv.1.1 he
+      have := hi.disj c e.1 v e.2 hv.1.1 he
+      rw [hd] at this; cases this
 
 theorem inv_cull (s : State) (c : Cls) {x} (hi : CInvX s x) : CInvX (cull s c) x := by
   obtain ⟨hn, hr, hc⟩ := cull_n s c
@@ -369,11 +374,13 @@ theorem inv_cull (s : State) (c : Cls) {x} (hi : CInvX s x) : CInvX (cull s c) x
     by_cases hcc : c' = c
     · subst hcc
       rcases cull_weak_mem s c' _ h2 with h | h
-      · exact hi.disj c' k v1 v2 (cull_strong_mem s c' _ h1) h.1
+      · have := hi.disj c' k v1 v2 (cull_strong_mem s c' _ h1) h.1
+        rw [h.2] at this; cases this
       · have := hi.funS c' k v1 v2 (cull_strong_mem s c' _ h1) h.1
         subst this
-        exact h.2.1 h1
-    · rw [cull_fac_other s c c' hcc] at h1 h2; exact hi.disj c' k v1 v2 h1 h2
+        exact absurd h1 h.2.1
+    · rw [cull_fac_other s c c' hcc] at h1 h2
+      exact (cull_obj s c v2).2.2.2.2.2.2 (hi.disj c' k v1 v2 h1 h2)
   · intro c' e he
     obtain ⟨o1, o2, o3, o4, o5, o6, o7⟩ := cull_obj s c e.2
     by_cases hcc : c' = c
@@ -518,7 +525,8 @@ theorem inv_weakErase (s : State) (c : Cls) (k : Id) (hi : CInv s)
 theorem inv_promote (s : State) (c : Cls) (k : Id) (h : Handle) (hi : CInv s)
     (hw : (k, h) ∈ (s.fac c).weak) (hd : (s.obj h).dead = false) (hdc : s.cfg.doCache = true) :
     CInv (setFac s c { s.fac c with weak := aerase k (s.fac c).weak, strong := aset k h (s.fac c).strong }) := by
-  have hns : ∀ v, (k, v) ∉ (s.fac c).strong := fun v hv => hi.disj c k v h hv hw
+  have hns : ∀ v, (k, v) ∉ (s.fac c).strong := fun v hv => by
+    have := hi.disj c k v h hv hw; rw [hd] at this; cases this
   obtain ⟨h1, h2, h3, h4, h5, h6, h7, h8⟩ := hi
   constructor
   · intro c' e he
@@ -544,7 +552,7 @@ theorem inv_promote (s : State) (c : Cls) (k : Id) (h : Handle) (hi : CInv s)
       simp only [mem_aset, mem_aerase]
       rintro (a | a) b
       · exact this a.1 b.1
-      · simp only [Prod.mk.injEq] at a; exact b.2 a.1
+      · simp only [Prod.mk.injEq] at a; exact absurd a.1 b.2
     · exact this
   · intro c' e; have := h5 c' e; simp only [setFac, upd]; split
     · subst_vars
@@ -689,7 +697,8 @@ theorem lookup_hit (s : State) (c : Cls) (k : Id) (h : Handle) (hi : CInv s)
     simp only [hdc, if_true, aget_eq_some_of_fun (hi.funS c) he]
   · have hW := aget_eq_some_of_fun (hi.funW c) he
     by_cases hdc : s.cfg.doCache = true
-    · have hS : aget k (s.fac c).strong = none := aget_none_iff.2 (fun v hv => hi.disj c k v h hv he)
+    · have hS : aget k (s.fac c).strong = none := aget_none_iff.2 (fun v hv => by
+        have := hi.disj c k v h hv he; rw [hd] at this; cases this)
       simp only [hdc, if_true, hS, hW, hd, Bool.false_eq_true, if_false]
     · have hdc' : s.cfg.doCache = false := by cases h' : s.cfg.doCache <;> simp_all
       simp only [hdc', Bool.false_eq_true, if_false, hW, hd]
@@ -710,7 +719,10 @@ theorem inv_alloc (s : State) (c : Cls) (k : Id) (ex : Bool) (hi : CInv s) :
     simp only [ne_eq, Option.some.injEq]; exact hne
   · exact h2
   · exact h3
-  · exact h4
+  · intro c' k' v1 v2 a b
+    have hlt := (h1 c' (k', v2) (Or.inr b)).1
+    have hne : v2 ≠ s.n := Nat.ne_of_lt hlt
+    simp only [alloc, upd, hne, if_false]; exact h4 c' k' v1 v2 a b
   · intro c' e he
     have := h1 c' e (Or.inl he)
     have hlt := this.1
@@ -733,13 +745,12 @@ theorem inv_insert_new (s : State) (c : Cls) (k : Id) (h : Handle) (hi : CInvX s
     (hn : h < s.n) (oc : (s.obj h).cls = c) (ok : (s.obj h).id = k) (od : (s.obj h).dead = false)
     (oo : (s.obj h).obsolete = false) (hr : k ∈ s.rows c)
     (hs : ∀ v, (k, v) ∉ (s.fac c).strong)
-    (hw : ∀ v, (k, v) ∈ (s.fac c).weak → s.cfg.doCache = false ∧ (s.obj v).dead = true) :
+    (hw : ∀ v, (k, v) ∈ (s.fac c).weak → (s.obj v).dead = true) :
     CInv (insertEntry s c k h) := by
   obtain ⟨h1, h2, h3, h4, h5, h6, h7, h8⟩ := hi
   unfold insertEntry
   by_cases hdc : s.cfg.doCache = true
   · simp only [hdc, if_true]
-    have hw' : ∀ v, (k, v) ∉ (s.fac c).weak := fun v hv => by have := (hw v hv).1; rw [hdc] at this; cases this
     constructor
     · intro c' e he
       have := h1 c' e
@@ -761,7 +772,7 @@ theorem inv_insert_new (s : State) (c : Cls) (k : Id) (h : Handle) (hi : CInvX s
         simp only [mem_aset]
         rintro (a | a) b
         · exact this a.1 b
-        · simp only [Prod.mk.injEq] at a; rw [a.1] at b; exact hw' v2 b
+        · simp only [Prod.mk.injEq] at a; rw [a.1] at b; exact hw v2 b
       · exact this
     · intro c' e; have := h5 c' e; simp only [setFac, upd]; split
       · subst_vars
@@ -827,7 +838,7 @@ theorem inv_insert_new (s : State) (c : Cls) (k : Id) (h : Handle) (hi : CInvX s
           · left; exact a
           · right; left; refine ⟨a, fun hk => ?_⟩
             rw [hk] at a
-            have := (hw h' a).2
+            have := hw h' a
             rw [h8 h' hn' hh] at this; cases this
         · exact a
     · exact h8
@@ -1021,7 +1032,11 @@ theorem inv_gc (s : State) (hs : List Handle) (hi : CInv s) : CInv (gcStep s hs)
     rw [a1, a2, a4]; exact h1 c e he
   · exact h2
   · exact h3
-  · exact h4
+  · intro c k v1 v2 a b
+    have := h4 c k v1 v2 a b
+    simp only [gcStep]; split
+    · rfl
+    · exact this
   · intro c e he
     simp only [gcStep]
     split
@@ -1070,7 +1085,8 @@ theorem inv_weakrefAll (s : State) (hi : CInv s) : CInv (weakrefAll s) := by
       simp only
       rcases a with a | a
       · exact mem_asetAll_new _ _ _ (h2 _) a
-      · exact mem_asetAll_old _ _ _ a (fun v hv => h4 _ _ v h hv a)
+      · exact mem_asetAll_old _ _ _ a (fun v hv => by
+          have := h4 _ _ v h hv a; rw [h8 h hn hh] at this; cases this)
     · exact h8
   · exact hi
 
@@ -1085,7 +1101,6 @@ def heldAt (s : State) (c : Cls) (k : Id) : Bool :=
     (E1) detaches an instance the application holds: `obj.expire()` while a held instance is registered
          for that row, `connection.expireAll()` while the application holds any live instance;
     (E2) unpickles a row that does not exist (any more);
-    (E3) unpickles while a dead weak reference for that id still lingers in the expired cache;
     (E4) calls `destroySelf()` on an instance that was already destroyed. -/
 def guard (s : State) : Op → Bool
   | .expire h => !heldAt s (s.obj h).cls (s.obj h).id
@@ -1093,9 +1108,7 @@ def guard (s : State) : Op → Bool
   | .destroy h => !(s.obj h).obsolete
   | .unpickle p =>
     match s.pickles[p]? with
-    | some (c, k, _) =>
-      (s.rows c).contains k &&
-      (!s.cfg.doCache || (match aget k (s.fac c).weak with | some h => !(s.obj h).dead | none => true))
+    | some (c, k, _) => (s.rows c).contains k
     | none => true
   | _ => true
 
@@ -1143,6 +1156,20 @@ theorem inv_expireFold (items : List Handle) (s : State) (hi : CInv s)
 
 
 
+theorem tick_strong_mem (s : State) (c c' : Cls) (e : Id × Handle)
+    (he : e ∈ ((tick s c).fac c').strong) : e ∈ (s.fac c').strong := by
+  rcases tick_cases s c with h | h | h <;> rw [h] at he
+  · exact he
+  · simp only [setFac, upd] at he; split at he
+    · subst_vars; exact he
+    · exact he
+  · by_cases hcc : c' = c
+    · subst hcc
+      have := cull_strong_mem _ _ _ he
+      simpa [setFac, upd] using this
+    · rw [cull_fac_other _ c c' hcc] at he
+      simpa [setFac, upd, hcc] using he
+
 theorem tick_dead (s : State) (c : Cls) (h : Handle) (hd : ((tick s c).obj h).dead = true) :
     (s.obj h).dead = true ∨ ∃ c' k, Ent s c' (k, h) := by
   rcases tick_cases s c with e | e | e <;> rw [e] at hd
@@ -1157,7 +1184,7 @@ theorem tick_dead (s : State) (c : Cls) (h : Handle) (hd : ((tick s c).obj h).de
 /-- `created` for a freshly built instance (after INSERT, or in `__setstate__`) -/
 theorem inv_register (s : State) (c : Cls) (k : Id) (ex : Bool) (hi : CInv s) (hr : k ∈ s.rows c)
     (hs : ∀ v, (k, v) ∉ (s.fac c).strong)
-    (hw : ∀ v, (k, v) ∈ (s.fac c).weak → s.cfg.doCache = false ∧ (s.obj v).dead = true) :
+    (hw : ∀ v, (k, v) ∈ (s.fac c).weak → (s.obj v).dead = true) :
     CInv (insertEntry (tick (alloc s c k ex) c) c k s.n) ∧
     Good (insertEntry (tick (alloc s c k ex) c) c k s.n) c k s.n := by
   have ha := inv_alloc s c k ex hi
@@ -1180,17 +1207,11 @@ theorem inv_register (s : State) (c : Cls) (k : Id) (ex : Bool) (hi : CInv s) (h
   have hr' : k ∈ (tick (alloc s c k ex) c).rows c := by rw [t2]; exact hr
   refine ⟨inv_insert_new _ c k s.n ht hn oc ok hdead oo hr' ?_ ?_, ?_⟩
   · intro v hv
-    rcases t6 c (k, v) (Or.inl hv) with x | x
-    · exact hs v x
-    · have := (hw v x).1
-      have h0 := ht.nocache (by rw [t3]; exact this) c
-      rw [h0] at hv; cases hv
+    exact hs v (by simpa [alloc] using tick_strong_mem _ c c _ hv)
   · intro v hv
-    rw [t3]
     rcases t6 c (k, v) (Or.inr hv) with x | x
     · exact absurd x (hs v)
-    · obtain ⟨x1, x2⟩ := hw v x
-      refine ⟨x1, ?_⟩
+    · have x2 := hw v x
       have hne : v ≠ s.n := Nat.ne_of_lt (hi.ent c (k, v) (Or.inr x)).1
       have := (t7 v).2.2.2.2.2
       apply this
@@ -1377,7 +1398,19 @@ theorem step_spec (s : State) (op : Op) (hi : CInv s) (hg : guard s op = true) :
       · intro c; have := h3 c; simp only [setFac, setObj, upd]; split
         · subst_vars; exact fun_filter this
         · exact this
-      · intro c k v1 v2; have := h4 c k v1 v2; simp only [setFac, setObj, upd]; split <;> simp_all [mem_aerase]
+      · intro c k v1 v2 a b
+        have a0 : (k, v1) ∈ (s.fac c).strong := by
+          simp only [setFac, setObj, upd] at a; split at a
+          · subst_vars; simp only [mem_aerase] at a; exact a.1
+          · exact a
+        have b0 : (k, v2) ∈ (s.fac c).weak := by
+          simp only [setFac, setObj, upd] at b; split at b
+          · subst_vars; simp only [mem_aerase] at b; exact b.1
+          · exact b
+        have := h4 c k v1 v2 a0 b0
+        simp only [setFac, setObj, upd]; split
+        · subst_vars; exact this
+        · exact this
       · intro c e he
         have he0 : e ∈ (s.fac c).strong := by
           simp only [setFac, setObj, upd] at he; split at he
@@ -1401,8 +1434,8 @@ theorem step_spec (s : State) (op : Op) (hi : CInv s) (hg : guard s op = true) :
               rw [hk] at a
               rcases a with a | a <;> rcases hent with b | b
               · exact hx (h2 _ _ _ _ a b)
-              · exact h4 _ _ _ _ a b
-              · exact h4 _ _ _ _ b a
+              · have := h4 _ _ _ _ a b; rw [h8 h hu.1 hu.2] at this; cases this
+              · have := h4 _ _ _ _ b a; rw [h8 h' hn hh] at this; cases this
               · exact hx (h3 _ _ _ _ a b)
             rcases a with a | a
             · exact Or.inl ⟨a, hk⟩
@@ -1426,34 +1459,31 @@ theorem step_spec (s : State) (op : Op) (hi : CInv s) (hg : guard s op = true) :
     | some x =>
       obtain ⟨c, k, ex⟩ := x
       simp only
-      simp only [guard, hp, Bool.and_eq_true, Bool.or_eq_true, Bool.not_eq_true'] at hg
-      obtain ⟨hrow, hweak⟩ := hg
-      have hrow' : k ∈ s.rows c := by simpa using hrow
+      simp only [guard, hp] at hg
+      have hrow' : k ∈ s.rows c := by simpa using hg
       cases ht : tryGet s c k with
       | some _ => exact ⟨hi, by simp [Out.handles], by simp [Op.isAccess]⟩
       | none =>
         simp only
+        have hft : Extracted.Cache.tryGetFallsThrough = true := rfl
+        have hw : ∀ v, (k, v) ∈ (s.fac c).weak → (s.obj v).dead = true := by
+          intro v hv
+          have hg' := aget_eq_some_of_fun (hi.funW c) hv
+          cases h' : (s.obj v).dead with
+          | true => rfl
+          | false => simp [tryGet, hg', h'] at ht
         have hs : ∀ v, (k, v) ∉ (s.fac c).strong := by
           intro v hv
           have hdc : s.cfg.doCache = true := by
             cases h' : s.cfg.doCache with
             | true => rfl
             | false => rw [hi.nocache h' c] at hv; cases hv
-          have hnw : aget k (s.fac c).weak = none := aget_none_iff.2 (fun w hw => hi.disj c k v w hv hw)
-          simp only [tryGet, hnw, hdc, if_true] at ht
-          exact aget_none_iff.1 ht v hv
-        have hw : ∀ v, (k, v) ∈ (s.fac c).weak → s.cfg.doCache = false ∧ (s.obj v).dead = true := by
-          intro v hv
-          have hg' := aget_eq_some_of_fun (hi.funW c) hv
-          simp only [tryGet, hg'] at ht
-          have hd : (s.obj v).dead = true := by
-            cases h' : (s.obj v).dead with
-            | true => rfl
-            | false => simp [h'] at ht
-          refine ⟨?_, hd⟩
-          rcases hweak with x | x
-          · exact x
-          · simp only [hg', hd] at x; cases x
+          have hsg := aget_eq_some_of_fun (hi.funS c) hv
+          cases hg' : aget k (s.fac c).weak with
+          | none => simp [tryGet, hg', hdc, hsg] at ht
+          | some w =>
+            have hd := hw w (aget_some_mem hg')
+            simp [tryGet, hg', hd, hft, hdc, hsg] at ht
         have := inv_register s c k ex hi hrow' hs hw
         refine ⟨this.1, ?_, by simp [Op.isAccess]⟩
         intro h hh
